@@ -130,7 +130,7 @@ fn source_addr(net: &Net<Frame>, source: &str) -> SocketAddr {
 }
 
 /// One datagram against a prepared net; checks the oracle. Returns Ok(class).
-fn shoot(net: &mut Net<Frame>, before: &str, source: &str, data: &[u8], plain_peer: bool) -> Result<u64, Fail> {
+pub fn shoot(net: &mut Net<Frame>, before: &str, source: &str, data: &[u8], plain_peer: bool) -> Result<u64, Fail> {
     let from = source_addr(net, source);
     let r = util::catch(|| net.inject(0, from, data.to_vec()));
     if let Err(p) = r {
